@@ -203,7 +203,7 @@ func (st *State) havocAll(tag string) {
 		v Value
 	}
 	var keep []saved
-	for _, al := range st.fx.localCells() {
+	for _, al := range append(append([]*ssa.Alloc(nil), st.fx.localCells()...), st.fx.unescapedLocals()...) {
 		ref, ok := st.env[al]
 		if !ok || ref.K != VRef {
 			continue
@@ -337,7 +337,12 @@ func (st *State) loadAtIn(h *HeapView, a Addr) Value {
 	}
 	v := Value{K: k, T: term, Ty: t}
 	st.assumeTypeInv(v)
-	st.assumeNonNil(v)
+	if !strings.HasPrefix(a.Key, "cell:") {
+		// (the declared non-nil invariant holds for struct fields, elements and globals, whose
+		// stores are checked; a local or captured variable may hold nil: what a closure may assume
+		// about it is proved where the closure is created)
+		st.assumeNonNil(v)
+	}
 	if st.quietInv == 0 && st.fx.eng.nonNilGlobals[a.Key] && (k == VRef || k == VIface || k == VFunc || k == VMap || k == VChan) {
 		st.assume("(not (= " + term + " 0))")
 	}
